@@ -90,6 +90,7 @@ type Options struct {
 	NoSeencheck         bool   // --disable-seencheck with the local queue (no store is started, as in startPipeline)
 	Proxy               bool   // --proxy set: only the proxied client exists, as in startWARCWriter
 	AsyncWARC           bool   // --async-warc-write: no feedback channel
+	SlowWrites          bool   // every WARC write may (as an environment deviation, cost F) take 5 virtual minutes
 	DomainsCrawl        bool
 }
 
@@ -98,11 +99,11 @@ type World struct {
 	Opt  Options
 	Site Site
 
-	mu       hkit.Mutex
-	Log      []*Fetch
-	attempts map[string]int
-	Finished []Msg
-	Produced []Msg
+	mu         hkit.Mutex
+	Log        []*Fetch
+	attempts   map[string]int
+	Finished   []Msg
+	Produced   []Msg
 	BodiesOpen int
 
 	ReactorOut, PreOut, ArchOut, PostOut chan *models.Item
@@ -150,7 +151,7 @@ func New(opt Options, site Site) *World {
 		DisableRateLimit:     !opt.RateLimit,
 		RateLimitCapacity:    2, RateLimitRefillRate: 1, RateLimitCleanupFrequency: 5 * time.Minute,
 		UseSeencheck: !opt.NoSeencheck, DisableSeencheck: opt.NoSeencheck, UserAgent: "verif", UseHQ: !opt.LocalSeencheck && !opt.NoSeencheck,
-		WARCWriteAsync: opt.AsyncWARC,
+		WARCWriteAsync:    opt.AsyncWARC,
 		ExcludeHosts:      append([]string{"archive.org", "archive-it.org"}, opt.ExcludeHosts...),
 		WARCDiscardStatus: opt.DiscardStatus,
 		WARCTempDir:       w.seenDir + "/temp",
@@ -391,7 +392,11 @@ func (b *body) Close() error {
 	w.BodiesOpen--
 	w.mu.Unlock()
 	f, fb := b.f, b.fb
+	slow := w.Opt.SlowWrites
 	go func() { // "WARC write of " + f.URL
+		if slow && vsched.Choose("h:this WARC write is slow", 2) == 1 {
+			time.Sleep(5 * time.Minute)
+		}
 		if !f.Accept {
 			if fb != nil {
 				close(fb)
